@@ -354,9 +354,11 @@ pub fn check_get_decodable<K: EnrKey>(ctx: &mut Ctx, e: &Enr<K>, o: &Obs, site: 
             let sv = e.get_decodable::<String>(k).and_then(Result::ok);
             let lv = e.get_decodable::<Vec<Bytes>>(k).and_then(Result::ok).map(|l| l.into_iter().map(|b| b.to_vec()).collect::<Vec<_>>());
             let rawv = e.get_raw_rlp(k).map(|r| r.to_vec());
-            (u8v, u16v, u64v, bv, sv, lv, rawv)
+            #[allow(deprecated)]
+            let getv = if rlp::single_item(raw).is_some() { e.get(k).map(|b| b.to_vec()) } else { None };
+            (u8v, u16v, u64v, bv, sv, lv, rawv, getv)
         });
-        let (u8v, u16v, u64v, bv, sv, lv, rawv) = match r {
+        let (u8v, u16v, u64v, bv, sv, lv, rawv, getv) = match r {
             Ok(v) => v,
             Err(_) => continue, // reported by the C03 sweep
         };
@@ -370,6 +372,11 @@ pub fn check_get_decodable<K: EnrKey>(ctx: &mut Ctx, e: &Enr<K>, o: &Obs, site: 
         };
         if rawv.as_deref() != Some(raw.as_slice()) {
             bad("get_raw_rlp", ctx, format!("get_raw_rlp {:?} vs iter {}", rawv.as_ref().map(|r| hex(r)), hex(raw)));
+        }
+        // the deprecated get(): the payload of the item (for a list: its payload bytes)
+        let wget = rlp::single_item(raw).map(|h| raw[h.off..].to_vec());
+        if getv != wget {
+            bad("get", ctx, format!("raw {} => get() {:?}", hex(raw), getv.as_ref().map(|b| hex(b))));
         }
         let w8 = rlp::as_uint(raw, 1).map(|v| v as u8);
         if u8v != w8 {
@@ -449,6 +456,9 @@ pub fn check_state<KK: KeyKind>(
     }
     // ---- C14
     check_typed(ctx, o, site, replay);
+    if o.into_iter_pairs != o.pairs {
+        ctx.violate("C08", "into_iter-differs-from-iter", site, || "owning iteration yields other pairs than iter()".into(), replay);
+    }
     if !opts.full_state_checks {
         // still: accepted again by the decoder (C05) — cheap enough
         let d = decode_as::<KK::K>(&o.enc);
